@@ -219,7 +219,8 @@ def run_cli(args, tmpdir, timeout=30.0, stdin=None):
     p = _P()
     p.returncode, p.stdout, p.stderr = proc.returncode, out, err
     return {"rc": p.returncode, "out": p.stdout.decode("utf-8", "replace"),
-            "err": ANSI.sub("", p.stderr.decode("utf-8", "replace")), "watchdog": False}
+            "err": ANSI.sub("", p.stderr.decode("utf-8", "replace")), "watchdog": False,
+            "err_raw": p.stderr.decode("utf-8", "replace")}
 
 
 def cli_panic(err):
@@ -386,7 +387,10 @@ def match_finding(findings, v):
     for f in findings:
         if f.get("status") != "open":
             continue
-        if f.get("kind") != "*" and f.get("kind") != v["kind"]:
+        if "kinds" in f:
+            if v["kind"] not in f["kinds"]:
+                continue
+        elif f.get("kind") != v["kind"]:
             continue
         if re.fullmatch(f["sig"], v["sig"]):
             return f
@@ -395,3 +399,30 @@ def match_finding(findings, v):
 
 def rng_for(seed, *parts):
     return random.Random(key_of(seed, *parts))
+
+
+NAME_STEMS = ["a", "main", "unit", "motor", "part", "lib", "my prog", "café", "v1.2", "x-y_z", "UPPER", "MiXed",
+              "n" * 40, "über", "st", "1"]
+
+
+def file_names(rng, n, ext=".st", twins=0.5):
+    """n distinct file names the way they occur in real projects: blanks, dots, non-ASCII letters, and names that
+    differ only in letter case (motor.st / Motor.st / MOTOR.ST are three files on a case-sensitive file system)."""
+    out = []
+
+    def add(name):
+        if name not in out and "/" not in name:
+            out.append(name)
+    guard = 0
+    while len(out) < n and guard < 1000:
+        guard += 1
+        stem = rng.choice(NAME_STEMS)
+        if rng.random() < 0.3:
+            stem += str(rng.randint(0, 9))
+        e = ext if rng.random() < 0.8 else ext.upper()
+        add(stem + e)
+        if len(out) < n and rng.random() < twins:
+            tw = rng.choice([stem.upper() + e, stem.capitalize() + e, stem.swapcase() + e, stem + e.swapcase()])
+            add(tw)
+    rng.shuffle(out)
+    return out[:n]
